@@ -45,6 +45,7 @@ package types
 //@   at return: assert a-value-is-never-read-back-as-null: result == nil && localor("value", nil) != nil ==> c.Value != nil
 //@   at return: assert times-come-back-as-times: result == nil && localor("value", nil) != nil && (columnType == 91 || columnType == 92 || columnType == 93) ==> isT(c.Value, time.Time)
 //@   at return: assert binary-comes-back-as-bytes: result == nil && localor("value", nil) != nil && isT(value, string) && (columnType == -2 || columnType == -3 || columnType == -4) ==> isT(c.Value, []byte)
+//@   at call DecodeString#1: assert bytes-are-read-with-the-alphabet-they-were-written-in: arg_self == base64.StdEncoding
 //@   at return: assert numbers-stay-numbers: result == nil && localor("value", nil) != nil && (columnType == -6 || columnType == 7) ==> isT(c.Value, int8) || isT(c.Value, int16) || isT(c.Value, int32) || isT(c.Value, int64) || isT(c.Value, float32) || isT(c.Value, float64)
 //@   nopanic
 
